@@ -35,6 +35,15 @@ from spyne.protocol.dictdoc import DictDocument
 
 
 RE_HTTP_ARRAY_INDEX = re.compile(r"\[([0-9]+)]")
+RE_NUMBER = re.compile(r"([0-9]+)")
+
+
+def _natural_key(item):
+    """Sort key for flat dict keys that compares array indexes as numbers, so
+    that ``a[2].b`` comes before ``a[10].b``."""
+
+    return [int(s) if i % 2 else s
+                               for i, s in enumerate(RE_NUMBER.split(item[0]))]
 
 
 def _s2cmi(m, nidx):
@@ -180,7 +189,7 @@ class SimpleDictDocument(DictDocument):
         logger.debug("Simple type info key: %r", simple_type_info.keys())
 
         idxmap = defaultdict(dict)
-        for orig_k, v in sorted(doc.items(), key=lambda _k: _k[0]):
+        for orig_k, v in sorted(doc.items(), key=_natural_key):
             k = RE_HTTP_ARRAY_INDEX.sub("", orig_k)
 
             member = simple_type_info.get(k, None)
